@@ -82,7 +82,7 @@ def classify_handle_data_exit(f, p):
     r = p.ret
     decs = [c for c in p.calls() if c['decl'] in ('codec::Codec::decode_header', 'codec::Codec::decode_member')]
     dec_cls = {'codec::Codec::decode_header': 'undecodable-header', 'codec::Codec::decode_member': 'undecodable-member-list'}
-    if r[0] == 'agg' and r[3] == 'Err':
+    if r[0] == 'agg' and r[3] == 'Err' and not q.path_is_error_propagation(p):
         v = q.variant_name(r[5][0])
         if v == 'Decode' and decs:
             # an explicit `Err(e) => return Err(Error::Decode(..))`: the error of the last decode call on the path
